@@ -48,12 +48,16 @@
 
    Deviations (CONSTANT Deviations, {} = reference design):
      "SuffixFromFirstDot"   extension = everything after the first dot of the name (".tar.gz")
-     "Rtf!UnitsUnpaired"    \uN decoded as chr(N & 0xFFFF) one by one (the pinned tree)           *)
+     "Rtf!UnitsUnpaired"    \uN decoded as chr(N & 0xFFFF) one by one (the pinned tree)
+     "Epub!DcMetadataWrapperIgnored"   as built (finding KF-C04-01): epub_extractor._parse_metadata looks for the dc
+                            elements among the CHILDREN of <metadata> only; in an OEB 1.x style package document
+                            (<metadata><dc-metadata>dc:...</dc-metadata><x-metadata/></metadata>, deprecated in OPF 2.0
+                            but to be processed by reading systems) every property is reported as ""          *)
 EXTENDS Naturals, Sequences, FiniteSets, TLC
 
 CONSTANT Deviations
 
-DeviationNames == {"SuffixFromFirstDot", "Rtf!UnitsUnpaired"}
+DeviationNames == {"SuffixFromFirstDot", "Rtf!UnitsUnpaired", "Epub!DcMetadataWrapperIgnored"}
 
 Last(s) == s[Len(s)]
 Front(s) == SubSeq(s, 1, Len(s) - 1)
@@ -223,10 +227,15 @@ RStrip(s) == IF s # <<>> /\ Last(s) \in Blank THEN RStrip(Front(s)) ELSE s
 Strip(s) == RStrip(LStrip(s))
 
 \* a stored textual property is reported unchanged (values are code point sequences)
-PropOK(fmt, mtype, field, has, cls, stored, got) ==
+\* what a stored value is reported as; wrapped = the dc elements sit in an OEB 1.x <dc-metadata> wrapper
+Reported(stored, wrapped) ==
+    IF wrapped /\ "Epub!DcMetadataWrapperIgnored" \in Deviations THEN <<>> ELSE Strip(stored)
+Law_ReportedUnchanged(stored, wrapped) == Reported(stored, wrapped) = Strip(stored)
+
+PropOK(fmt, mtype, field, has, cls, stored, got, wrapped) ==
     /\ (fmt \in DOMAIN MetaTypeOf => mtype = MetaTypeOf[fmt])
     /\ IF mtype \in DOMAIN Carries /\ field \in Carries[mtype]
        THEN /\ has = TRUE /\ cls = "str" /\ Utf8OK(got)
-            /\ ((fmt \in DOMAIN Stores /\ field \in Stores[fmt]) => Strip(got) = Strip(stored))
+            /\ ((fmt \in DOMAIN Stores /\ field \in Stores[fmt]) => Strip(got) = Reported(stored, wrapped))
        ELSE has = TRUE => (cls = "str" => Utf8OK(got))        \* DON'T-CARE: no such field in the type
 =============================================================================
